@@ -17,6 +17,7 @@
 -/
 import IocProofs.Lemmas.M2Inv
 import IocProofs.Lemmas.SemFactory2
+import IocProofs.Lemmas.M2Lookups
 namespace Ioc.C01
 open Ioc.M2
 
@@ -145,5 +146,50 @@ theorem C01_code_GetComponentByName (n : Nat) (res : Option Nat) :
             | some v => .tuple [.ref n (1000 + v), .nil]
             | none => .tuple [.nil, Sem.errF], ()) :=
   Sem.getComponentByName_sem n res
+
+/-! ### lazily created components: lookups after the start
+
+`M2.lookupAfter sc st n` resumes creation for the name `n` from the state the start (or an earlier lookup) left —
+`GetComponentByName` of a component that was not needed at start-up.  As long as NO attempt fails, the machine invariant is
+carried from lookup to lookup (`Lc.lookupsAfter_inv`), so after ANY sequence of such lookups that ends in a finished state,
+every field of every holder — created at start-up or by any of the lookups — holds the published instance of its
+component, and no two fields hold different versions of one name.  (With a FAILED attempt in the sequence this is false:
+`C03_retry_counterexample`, known finding KF-C03-1.) -/
+theorem C01_identity_after_lookups (sc : Scen) (wf : WF sc) (ns : List Nat)
+    (hall : Lc.AllNF sc (final sc) ns) (hd : (Lc.lookupsAfter sc (final sc) ns).status = .done) :
+    ∀ k i o, o ∈ (Lc.lookupsAfter sc (final sc) ns).fields k i → (Lc.lookupsAfter sc (final sc) ns).l1 o.name = some o := by
+  obtain ⟨hi, hnf⟩ := Lc.lookupsAfter_inv sc wf ns (final sc) (inv_run sc wf (fuelBound sc)) hall
+  exact hi.quiescent hnf (hi.quiet (by rw [hd]; intro h'; cases h'))
+
+theorem C01_one_object_after_lookups (sc : Scen) (wf : WF sc) (ns : List Nat) (hall : Lc.AllNF sc (final sc) ns) :
+    ∀ k i k' i' o o', o ∈ (Lc.lookupsAfter sc (final sc) ns).fields k i →
+      o' ∈ (Lc.lookupsAfter sc (final sc) ns).fields k' i' → o.name = o'.name → o = o' :=
+  fun k i k' i' o o' => (Lc.lookupsAfter_inv sc wf ns (final sc) (inv_run sc wf (fuelBound sc)) hall).1.one_ver k i o k' i' o'
+
+/-- … and what was published before a lookup stays published: a lookup never replaces an instance -/
+theorem C01_published_survives_lookups (sc : Scen) (wf : WF sc) (st : St) (hi : Inv sc st) (hnf : NF st) (n x : Nat) (o : Obj)
+    (h : st.l1 x = some o) : (lookupAfter sc st n).l1 x = some o := by
+  unfold lookupAfter
+  cases hs : st.status with
+  | running => exact h
+  | done => exact l1_stable_run sc wf _ _ (Lc.Inv.restart hi hnf n) x o h
+  | failed w s => exact absurd hs (hnf w s)
+
+/-- non-vacuity: a lazy two-cycle 1 ⇄ 2 (nothing is created by the start), looked up as 1, then 2: both attempts end done,
+    and the hypotheses of the theorems above hold -/
+def lazyPair : Scen :=
+  { names := [1, 2], boot := [], eager := [],
+    points := fun n => match n with
+      | 1 => some [⟨[2], false, true, []⟩]
+      | 2 => some [⟨[1], false, true, []⟩]
+      | _ => some [],
+    wired := fun _ => true, logged := fun _ => true, cfgOk := fun _ => true,
+    fBefore := fun _ => false, fAps := fun _ => false, fInit := fun _ => false, fAfter := fun _ => false,
+    fEarly := fun _ => false, earlyO := fun n => if n = 1 then ⟨1, 1⟩ else raw n, afterO := raw }
+
+example : Lc.AllNF lazyPair (final lazyPair) [1, 2] ∧ (Lc.lookupsAfter lazyPair (final lazyPair) [1, 2]).status = .done ∧
+    (Lc.lookupsAfter lazyPair (final lazyPair) [1, 2]).fields 2 0 = [⟨1, 1⟩] ∧
+    (Lc.lookupsAfter lazyPair (final lazyPair) [1, 2]).l1 1 = some ⟨1, 1⟩ :=
+  ⟨⟨NF_of_done (by decide), NF_of_done (by decide), NF_of_done (by decide)⟩, by decide, by decide, by decide⟩
 
 end Ioc.C01
